@@ -6,11 +6,17 @@
    begin_read / drop / commit (any fresh pages added, any pages of the latest version dropped) / abort.
    (2) Conc/Programs.v (C03): the interleaved step model, from which comes the fact that the id a reader
    pins is the id of the root it reads, for every schedule.
-   Partial: non-durable commits and their early reclaim are NOT in model (1) -- there the statement was
-   false in redb until begin_read was fixed (finding F1, see Props/C03.v and design.d/C02.md); savepoint restore, the cache layer
-   and the B-tree read path are validated by the harness only. *)
+   (3) Txn/Own.v (C06): the page-ownership state machine, which HAS non-durable commits with their early
+   reclaim, the post-commit epilogue, savepoint creation / deletion / restore, aborts and reopen: from it
+   (Txn/PinPersistP.v) a reader registered after any history keeps its registration and all pages of the
+   version it pinned, and the allocator never hands one of them out, over every continuation that does not
+   drop it.  Model (1) has no non-durable commits -- there the statement was false in redb until begin_read
+   was fixed (finding F1, see Props/C03.v and design.d/C02.md).
+   Partial: the cache layer and the B-tree read path are validated by the harness only; model (3) is tied to
+   the code by C06's step-by-step correspondence (harness c06), model (2) by C03's. *)
 From Coq Require Import List NArith.
 From RV Require Import Conc.Versions Conc.VersionsP Conc.Programs Conc.ProgramsP Conc.InvP.
+From RV Require Import Txn.PSet Txn.Own Txn.OwnP Txn.OwnThmP Txn.PinPersistP.
 Import ListNotations.
 Open Scope N_scope.
 
@@ -41,7 +47,42 @@ Theorem c02_snapshot_is_one_publication : forall sched progs r rs x,
   (forall t, result t (Observe r) s = RTag (snd x)).
 Proof. exact linearizable_by_publication. Qed.
 
+(* ---- model (3): all histories of the ownership model, incl. non-durable commits, restores, aborts ---- *)
+
+(* a registered reader / ephemeral savepoint stays registered, with the same page set, over every admissible
+   continuation that neither drops its handle nor reopens the database *)
+Theorem c02_pin_persists : forall h s r, uniq s -> ppersist r = false -> held s r -> admissible s h ->
+  forallb (keeps (ph r)) h = true -> held (run h s) r /\ uniq (run h s).
+Proof. exact held_run. Qed.
+
+(* from creation: the data pages of the commit that was latest when begin_read ran stay allocated and are
+   never handed out again (hence never rewritten) for as long as the reader is not dropped *)
+Theorem c02_reader_snapshot_pages_frozen : forall h0 h h1,
+  admissible init (h0 ++ OBeginRead h :: h1) -> forallb (keeps h) h1 = true ->
+  let s0 := run h0 init in
+  let s' := run (h0 ++ OBeginRead h :: h1) init in
+  let snap := vdata (lat s0) in
+  In (mkpin h (vid (lat s0)) snap false) (pins s') /\ incl snap (alloc s') /\
+  (forall D', ok_data D' s' = true -> disjoint (minus D' (wdata s')) snap) /\
+  (forall S', ok_sys S' s' = true -> disjoint (minus S' (wsys s')) snap).
+Proof. exact reader_snapshot_pages_frozen. Qed.
+
 (* ---------------------------------------------------------------- non-vacuity *)
+(* model (3): a reader begun at commit 2 survives a durable commit that unlinks its pages, a NON-durable commit
+   and a savepoint restore + commit; its pages 1 2 3 are still allocated at the end although the current tree is [1;8] *)
+Definition c02_own_prefix : list op :=
+  [ OBeginWrite; OMutData [1;2;3]; OCommitDur [1;2;3] [10;11] [] false true ]%positive.
+Definition c02_own_suffix : list op :=
+  [ OBeginWrite; OMutData [1;2;4;5]; OCommitDur [1;2;4;5] [10;12] [] false true;
+    OBeginWrite; OSpCreate 9%N false; OMutData [1;6]; OCommitNd [1;6] [10;12;13];
+    OBeginWrite; OMutData [1;8]; OCommitDur [1;8] [14;15] [16] true true ]%positive.
+Example c02_nonvacuous_own :
+  admissible init (c02_own_prefix ++ OBeginRead 7%N :: c02_own_suffix) /\
+  forallb (keeps 7%N) c02_own_suffix = true /\
+  vdata (lat (run c02_own_prefix init)) = [1;2;3]%positive /\
+  vdata (lat (run (c02_own_prefix ++ OBeginRead 7%N :: c02_own_suffix) init)) = [1;8]%positive.
+Proof. vm_compute. repeat split; reflexivity. Qed.
+
 (* a reader pinned at version 2 while two later commits drop pages 2 and 3 of that version: the records stay
    pending, pages 2 and 3 stay allocated with their old stamps ... *)
 Example c02_nonvacuous_pinned :
